@@ -17,12 +17,15 @@ conditions around a real `tp.models.FCN` with activation z*z, a real learnable `
   ascent), the same scheduler stepped every `scheduler_frequency` steps.  Validation conditions do not occur in it.
 
 Goals (z3 identities over all symbols, cell by cell): after every step all learnable tensors and all optimizer state
-tensors of A equal those of B; every training condition was called exactly once per step with iteration == step index;
-every learnable tensor of the walk is in an optimizer param group; adaptive weights moved in the ascent direction of the
-true (un-reversed) gradient; validation steps leave every learnable term unchanged.
+tensors of A equal those of B, and so do the learning rates; every training condition was called exactly once per step
+with iteration == step index; every learnable tensor of the walk is in an optimizer param group and is updated; adaptive
+weights moved in the ascent direction of the true (un-reversed) gradient; validation steps (incl. the sanity validation
+before training) leave every learnable term unchanged.  'induct/' cases start both runs from an ARBITRARY symbolic
+optimizer state after k steps (the inductive step of "after any number of steps").
 """
 from __future__ import annotations
 
+import time
 import types
 import zlib
 
@@ -48,29 +51,43 @@ META = dict(
     bounds="training conditions drawn from PINNCondition (static sampler, residual with du/dx and a learnable inverse-problem "
            "Parameter), MeanCondition (non-static fixed sampler), DataCondition (real PointsDataLoader, 2 batches, norm 2), "
            "AdaptiveWeightsCondition (symbolic adaptive point weights), ParameterCondition (penalty on the shared Parameter), a "
-           "user-defined Condition whose loss depends on the step index; quick: 2 conditions, 2 steps, SGD momentum 0 / 0.5, lr "
-           "0.5 / 0.125; thorough: up to 4 conditions, 3 steps, SGD (+momentum, nesterov, weight decay) and Adam (betas (0.5, "
-           "0.75), eps 1/8; default betas/eps), StepLR / ExponentialLR with frequency 1 and 2, validation conditions on/off "
-           "(sharing model and Parameter with the training conditions, plus a validation-only Parameter), starting step "
-           "counter 0 or 5; all conditions share one real FCN (1 input, 1 hidden layer of 1 or 2 neurons, activation z*z, 1 "
-           "output), 2 points per condition; all initial weights, the Parameter, adaptive weights, condition weights w_i, points "
-           "and data symbolic (one case with Python-float condition weights)",
-    outside=["pl.Trainer itself (replaced by the stub driver, see assumptions); real logging; multi-device; checkpoints",
-             "optimizer hyper-parameters are concrete dyadic rationals from a small set (torch hands them to the kernels as "
-             "Python numbers); LBFGS and closures; optimizers other than SGD/Adam; ReduceLROnPlateau",
-             "more than 3 steps / 4 conditions; non-polynomial activations; non-static random samplers (C04/C14/C15 cover sampling)",
-             "gradient clipping / accumulation, manual optimisation, several optimizers",
-             "definedness of Adam's sqrt/division (sum-of-squares non-negativity) is not re-proved here: Adam cases run with "
-             "check_obligations=False"],
-    assumptions=["pl.Trainer.fit behaves as the stub: configure_optimizers, on_train_start, then per batch training_step -> "
-                 "optimizer.zero_grad -> loss.backward -> optimizer.step (one optimizer step per batch, no gradient clipping / "
-                 "accumulation), lr-scheduler configs with interval 'step' are stepped when (batch_idx + 1) % frequency == 0, "
-                 "validation_step runs under torch.no_grad() and the grad mode is restored afterwards; solver.log is a no-op",
-                 "condition weights are 0-d tensors (a Python float takes the same `weight * loss` expression; one case uses "
-                 "Python floats)",
+           "user-defined Condition whose loss depends on the step index; all conditions of a case share one real FCN (1 input, 1 "
+           "hidden layer of 1 or 2 neurons, activation z*z, 1 output) and one Parameter; 2 (one case 3) points per condition; all "
+           "initial weights, the Parameter, adaptive weights, condition weights w_i, points and data symbolic (Python-float "
+           "condition weights in two cases).  quick: 2 conditions, 2 steps, SGD lr 0.5 / 0.125 with momentum 0 / 0.5 (+ one case "
+           "each: validation on, StepLR, non-zero starting step counter, Adam 1 step, inductive step).  thorough: every ordered "
+           "pair of the six condition types and triples / a quadruple incl. AdaptiveWeightsCondition, 3 steps, SGD (momentum, "
+           "nesterov + weight decay), StepLR(step_size 1, 2) / ExponentialLR with scheduler_frequency 1 and 2, validation "
+           "conditions on/off (sharing model and Parameter with the training conditions, a validation-only Parameter, a "
+           "validation data iterator), starting step counter 0 or 5; Adam (betas (0.5, 0.75), eps 1/8, and the defaults): 1 "
+           "step from a cold start on 3-4 conditions, 2 steps on 2 conditions, 3 steps with one learnable cell, and the INDUCTIVE "
+           "step: one (two for SGD) step(s) from an arbitrary symbolic optimizer state (momentum buffers / exp_avg / exp_avg_sq "
+           ">= 0, step count 2, 4 or 7), which together with the cold first step covers any number of steps",
+    outside=["pl.Trainer itself (replaced by the stub driver, see assumptions); real logging; multi-device; checkpoint I/O",
+             "optimizer hyper-parameters are concrete (mostly dyadic) numbers from a small set, because torch hands them to the "
+             "kernels as Python numbers; optimizers other than SGD/Adam; ReduceLROnPlateau; several optimizers; manual optimisation",
+             "closure-based optimizers (LBFGS): they evaluate the loss several times per optimizer step, so 'once per step with the "
+             "step index' has no counterpart (observed with the real Trainer: Solver.n_training_step then counts loss evaluations)",
+             "more than 3 unrolled steps / 4 conditions; non-polynomial activations; random / adaptive samplers (C04/C14/C15)",
+             "Parameters combined with .join() (cannot be handed to a condition at all: known finding F-C04-joined-parameters)",
+             "Adam over 2+ unrolled steps on more than 2 conditions (z3 cannot exhibit a model of the nested square-root "
+             "definitions for the reachability twin in reasonable time; replaced by cold step + inductive step)",
+             "definedness of Adam's sqrt / division beyond the first step (non-negativity of sums of squares of high-degree "
+             "polynomials): those cases run with check_obligations=False"],
+    assumptions=["pl.Trainer.fit behaves as the stub: configure_optimizers, (restore of a checkpointed optimizer state,) sanity "
+                 "validation, on_train_start, then per batch training_step -> optimizer.zero_grad -> loss.backward -> "
+                 "optimizer.step (one optimizer step per batch, no gradient clipping / accumulation), lr-scheduler configs with "
+                 "interval 'step' are stepped when (batch_idx + 1) % frequency == 0, validation_step runs under torch.no_grad() "
+                 "and the grad mode is restored afterwards; solver.log is a no-op.  (Cross-checked outside the check: the real "
+                 "pytorch_lightning 2.6.6 Trainer(inference_mode=False) and the stub give bit-identical float64 weights and "
+                 "identical call sequences on three configurations incl. validation and scheduler_frequency 2.)",
+                 "condition weights are 0-d tensors (a Python float takes the same `weight * loss` expression; two cases use "
+                 "Python floats): a SymScalar weight would drop the autograd graph of a 0-d loss",
                  "torch.optim takes its single-tensor (non-foreach) code path on SymT parameters, as it does for any tensor "
                  "subclass on cpu",
-                 "a non-zero starting step counter is modelled by assigning solver.n_training_step after on_train_start"],
+                 "a non-zero starting step counter is modelled by assigning solver.n_training_step after on_train_start; an "
+                 "arbitrary optimizer state by assigning optimizer.state[p] before training (what load_state_dict does)",
+                 "inductive cases: Adam second moments are non-negative"],
 )
 
 DIMS = {"x": 1, "u": 1, "p": 1, "q": 1}
@@ -107,7 +124,7 @@ def _weight(env, tag, pyweights):
     return env.tensor("w_" + tag, ())
 
 
-def _mk_cond(env, kind, tag, model, prm, n, pyweights, extra):
+def _mk_cond(env, kind, tag, model, prm, n, pyweights):
     """one real condition; tag = unique name (also the prefix of its symbols)"""
     w = _weight(env, tag, pyweights)
     pts = lambda: K.fixed_points(env, tag + "_pts", XS, DIMS, n)  # noqa: E731
@@ -118,7 +135,6 @@ def _mk_cond(env, kind, tag, model, prm, n, pyweights, extra):
         c = C.PINNCondition(model, K.FixedSampler(pts()).make_static(), residual, parameter=prm, weight=w, name=tag)
     elif kind == "pinn_q":  # validation only: its own Parameter q
         q, _ = K.sym_parameter(env, tag + "_q", Space({"q": 1}))
-        extra["val_only_parameter"] = q
 
         def residual(u, x, q):
             return u - q * x
@@ -155,16 +171,15 @@ def _mk_cond(env, kind, tag, model, prm, n, pyweights, extra):
 
 def _world(env, train, val, hidden, n, pyweights):
     wd = World()
-    wd.extra = {}
     model, _ = K.sym_fcn(env, "m", K.space_of(XS, DIMS), K.space_of(US, DIMS), hidden=hidden)
     prm, _ = K.sym_parameter(env, "p", Space({"p": 1}))
     wd.model, wd.prm = model, prm
     for i, kind in enumerate(train):
-        c, w = _mk_cond(env, kind, "c%d" % i, model, prm, n, pyweights, wd.extra)
+        c, w = _mk_cond(env, kind, "c%d" % i, model, prm, n, pyweights)
         wd.train.append(c)
         wd.weights.append(w)
     for i, kind in enumerate(val):
-        c, _ = _mk_cond(env, kind, "v%d" % i, model, prm, n, pyweights, wd.extra)
+        c, _ = _mk_cond(env, kind, "v%d" % i, model, prm, n, pyweights)
         wd.val.append(c)
     return wd
 
@@ -417,11 +432,13 @@ def train_case(train, opt, lr, steps, sched=None, freq=1, val=(), start=0, hidde
             paths=[p for p, _, _ in learnA], paths_ref=[p for p, _, _ in learnB], ascend=[p for p, _, a in learnA if a],
             init=init, A=statesA, B=statesB, oA=ostatesA, oB=ostatesB, gradsB=gradsB,
             in_opt={p: id(t) in in_opt for p, t, _ in learnA}, per_step=per_step, n_train=len(train),
-            n_training_step=solver.n_training_step, walk_ok=walk_ok, lrsA=lrsA, lrsB=lrsB, val_pairs=val_pairs, val_only=[p for p, _, _ in learnV],
+            n_training_step=solver.n_training_step, walk_ok=walk_ok, lrsA=lrsA, lrsB=lrsB, val_pairs=val_pairs,
+            val_only=[p for p, _, _ in learnV],
             n_val_calls=sum(1 for c in A.calls if c[0] == "val"), final_val=_snap(env, learnV),
         )
 
     def goals(o, L, env):
+        _EFFORT[0] = time.time() + 30
         # ---- structural facts first ----
         yield "walk_finds_same_learnables_in_twin", o["paths"] == o["paths_ref"]
         yield "walk_finds_exactly_model_parameter_and_adaptive_weights", o["walk_ok"]
@@ -484,16 +501,19 @@ def _same(x, y):
     return x.eq(y) if isinstance(x, z3.ExprRef) and isinstance(y, z3.ExprRef) else x == y
 
 
+_EFFORT = [0.0]  # deadline of the extra effort _eq spends on terms that are not syntactically identical (per goals() call)
+
+
 def _eq(L, x, y):
     """x == y.  Terms that are not syntactically identical are (1) brought to a canonical sum-of-monomials form with bounded
     effort, so that the solver is handed `0 == 0` or a small residual polynomial; (2) if that does not settle it, evaluated at two
     fixed rational points: when they differ there, the goal handed over is the equality AT THAT POINT (weaker, and already known
     to be false), so that the solver answers with this counterexample at once instead of searching the zero set of a polynomial
     of high degree; otherwise the full equality goes to the solver."""
-    if not L.symbolic or not (isinstance(x, z3.ExprRef) and isinstance(y, z3.ExprRef)) or x.eq(y):
+    if not L.symbolic or not (isinstance(x, z3.ExprRef) and isinstance(y, z3.ExprRef)) or x.eq(y) or time.time() > _EFFORT[0]:
         return L.eq(x, y)
     try:
-        d = z3.TryFor(z3.With("simplify", som=True), 4000)(x - y == 0)
+        d = z3.TryFor(z3.With("simplify", som=True), 2000)(x - y == 0)
         if len(d) == 1 and z3.is_true(d[0].as_expr() if hasattr(d[0], "as_expr") else d[0]):
             return L.eq(x, x)
     except z3.Z3Exception:
@@ -503,7 +523,7 @@ def _eq(L, x, y):
         for salt in (b"a", b"b"):
             point = [(v, z3.RealVal("%d/4" % (zlib.crc32(salt + n.encode()) % 23 - 11))) for n, v in sorted(fv.items()) if z3.is_real(v)]
             try:  # bounded effort: numbers grow doubly exponentially with the number of steps
-                r = z3.TryFor(z3.Tactic("simplify"), 2000)(z3.substitute(x - y, *point) == 0)
+                r = z3.TryFor(z3.Tactic("simplify"), 1000)(z3.substitute(x - y, *point) == 0)
             except z3.Z3Exception:
                 break
             if len(r) == 1 and len(r[0]) == 1 and z3.is_false(r[0][0]):
